@@ -957,6 +957,10 @@ def bit_jaccard(x, y):
         result += popcnt[and_]
         denom += popcnt[or_]
 
+    if denom == 0.0:
+        # two empty sets: Jaccard similarity 1 by convention (as jaccard() does)
+        return 0.0
+
     return -np.log(result / denom)
 
 
